@@ -41,7 +41,7 @@ def OkStep (o : VOpts) (b D : Nat) (st : TState) (f : Frame) (frest : Frames) (p
 def Concl (o : VOpts) (b D : Nat) (st : TState) (f : Frame) (frest : Frames) (pre r : Bytes) (cnt base : Nat)
     (res : Nat × Err) : Prop :=
   (res.2 = .ok → OkStep o b D st f frest pre r res.1 cnt base) ∧
-  (res.2 ≠ .ok → ∀ F, Rej (tokenLoop o F st (pre ++ r) cnt base))
+  (res.2 ≠ .ok → ∀ F, Rej cnt (tokenLoop o F st (pre ++ r) cnt base))
 
 theorem tok_value_step (o : VOpts) {b D : Nat} {st st' : TState} {f : Frame} {frest : Frames} (pre r : Bytes) (n cnt base : Nat)
     (hrt : readToken o st (pre ++ r) = .tok (pre.length + n) st') (hg' : TGood (b + 1) st' (f.bump :: frest))
@@ -287,7 +287,7 @@ theorem split_at_drop (r : Bytes) (w : Nat) (c : UInt8) (t : Bytes) (h : r.drop 
 
 theorem rej_lead_end (o : VOpts) {b : Nat} {st : TState} {fs : Frames} (h : TGood b st fs) (hd : 2 ≤ fs.length)
     (lead r : Bytes) (hl : LeadOK (ncDelim fs) lead) (hr : JWs r) (cnt base : Nat) :
-    ∀ F, Rej (tokenLoop o F st (lead ++ r) cnt base) := by
+    ∀ F, Rej cnt (tokenLoop o F st (lead ++ r) cnt base) := by
   rcases hl with ⟨-, hw⟩ | ⟨hdl, w, hw, rfl⟩
   · exact rej_end o h hd _ (jws_append _ _ hw hr) cnt base
   · have : w ++ [ncDelim fs] ++ r = w ++ ncDelim fs :: r := by simp
@@ -310,7 +310,7 @@ def OkLoop (o : VOpts) (b D : Nat) (st : TState) (g : Frame) (grest : Frames) (l
 def ConclL (o : VOpts) (b D : Nat) (st : TState) (g : Frame) (grest : Frames) (lead r : Bytes) (cnt base : Nat)
     (res : Nat × Err) : Prop :=
   (res.2 = .ok → OkLoop o b D st g grest lead r res.1 cnt base) ∧
-  (res.2 ≠ .ok → ∀ F, Rej (tokenLoop o F st (lead ++ r) cnt base))
+  (res.2 ≠ .ok → ∀ F, Rej cnt (tokenLoop o F st (lead ++ r) cnt base))
 
 def SL (o : VOpts) (fuel : Nat) : Prop :=
   ∀ D r b st k g grest lead cnt base, AtElem b D st k g grest lead r → 3 * r.length + 2 ≤ fuel →
@@ -423,7 +423,7 @@ theorem sl_step (o : VOpts) (fuel : Nat) (hV : SV o fuel) (hL : SL o fuel) : SL 
         · intro he2
           simp only at he2
           intro F
-          exact rej_of_steps o hst1 (by rw [hin2]; exact hsl.2 he2) F
+          exact rej_of_steps o hst1 (by rw [hin2]; exact hsl.2 he2) rfl F
       · have hcomma' : (c2 == 0x2C) = false := by simpa using hcomma
         simp only [hcomma', Bool.false_eq_true, if_false]
         by_cases hclose : (c2 == 0x5D) = true
@@ -652,7 +652,7 @@ theorem rej_nonstring_name (o : VOpts) {b : Nat} {st : TState} {f : Frame} {fres
     (hb : b + 1 < 2^61) (hv : f.needName = true) (pre : Bytes) (c : UInt8) (tl : Bytes)
     (hpre : PreOK (ncDelim (f :: frest)) pre) (hcw : isWs c = false) (hq : normKind c ≠ 0x22)
     (hguard : ¬ (f = .obj 0 ∧ c = 0x7D ∧ frest ≠ [])) (cnt base : Nat) :
-    ∀ F, Rej (tokenLoop o F st (pre ++ c :: tl) cnt base) := by
+    ∀ F, Rej cnt (tokenLoop o F st (pre ++ c :: tl) cnt base) := by
   rcases byte_class c hcw with hs | hcl | hdb | ⟨hk0, hncl, hndb⟩
   · obtain ⟨-, hncl, hndb⟩ := start_nc c hs
     have hrt := readToken_pre o h pre c tl hpre hcw hndb hncl
@@ -662,7 +662,7 @@ theorem rej_nonstring_name (o : VOpts) {b : Nat} {st : TState} {f : Frame} {fres
            else match smStep maxNestingDepth st.m k with
             | .error se => .err pre.length (smErr se)
             | .ok m' => .tok (pre.length + n) { m := m', nss := st.nss }) →
-        ∀ F, Rej (tokenLoop o F st (pre ++ c :: tl) cnt base) := by
+        ∀ F, Rej cnt (tokenLoop o F st (pre ++ c :: tl) cnt base) := by
       intro k n e hbad hk hlex
       rw [hlex] at hrt
       by_cases he : e = .ok
@@ -770,7 +770,7 @@ def OkLoopO (o : VOpts) (b D : Nat) (st : TState) (g : Frame) (grest : Frames) (
 def ConclO (o : VOpts) (b D : Nat) (st : TState) (g : Frame) (grest : Frames) (lead r : Bytes) (cnt base : Nat)
     (outer : List (List Bytes)) (res : Nat × Err) : Prop :=
   (res.2 = .ok → OkLoopO o b D st g grest lead r res.1 cnt base outer) ∧
-  (res.2 ≠ .ok → ∀ F, Rej (tokenLoop o F st (lead ++ r) cnt base))
+  (res.2 ≠ .ok → ∀ F, Rej cnt (tokenLoop o F st (lead ++ r) cnt base))
 
 def SOL (o : VOpts) (fuel : Nat) : Prop :=
   ∀ D r names b st k g grest lead outer cnt base, AtMem o b D st k g grest lead r names outer → 3 * r.length + 2 ≤ fuel →
